@@ -19,7 +19,9 @@ pub const LETTERS: &[&str] = &[
     "verbatim replay of the newest genuine ack frame", "verbatim replay of the 2nd newest genuine ack frame", "verbatim replay of the oldest genuine ack frame", "replay of the newest genuine ack frame with all groups repeated twice",
     "frame window base one past the newest frame sent (no groups)", "frame window base two past the newest frame sent", "frame window base 1000 past the newest frame sent", "frame window base behind the sender's (stale)",
     "packet window base 64 past the next packet id", "packet window base half the id space ahead",
+    "MERGED: first acknowledgement of the oldest unacknowledged logged frame, once alone and once in one group with a later frame that is already acknowledged (the two runs are compared with each other)",
 ];
+const MERGED: usize = 18;
 
 /// Builds the injected ack frame from what the sender (side 0) has emitted / been handed so far.
 fn craft(letter: usize, tr: &Trace, cfg: &LwCfg) -> Option<Vec<u8>> {
@@ -50,6 +52,16 @@ fn craft(letter: usize, tr: &Trace, cfg: &LwCfg) -> Option<Vec<u8>> {
             Some(Frame::AckFrame(AckFrame { frame_window_base_id: fb, packet_window_base_id: p.tx_packet_base, frame_acks: vec![] }).write().to_vec()) }
         16 | 17 => { let pb = if letter == 16 { p.tx_packet_next.wrapping_add(64) & 0xFFFFF } else { p.tx_packet_next.wrapping_add(0x80000) & 0xFFFFF };
             Some(Frame::AckFrame(AckFrame { frame_window_base_id: p.tx_frame_base, packet_window_base_id: pb, frame_acks: vec![] }).write().to_vec()) }
+        18 | 118 => {
+            // frames still logged whose acknowledgement never reached the sender, and logged frames that are acknowledged
+            let mut acked: std::collections::HashSet<u32> = Default::default();
+            for a in genuine.iter() { for g in a.frame_acks.iter() { for b in 0..32u32 { if g.bitfield >> b & 1 != 0 { acked.insert(g.base_id.wrapping_add(b)); } } } }
+            let logged: Vec<u32> = (0..p.tx_frame_log_len).map(|i| p.tx_frame_log_base.wrapping_add(i)).collect();
+            let old = *logged.iter().find(|id| !acked.contains(id) && nonce_of(**id).is_some())?;
+            let newer = *logged.iter().rev().find(|id| acked.contains(id) && id.wrapping_sub(old) >= 1 && id.wrapping_sub(old) < 32 && nonce_of(**id).is_some())?;
+            if letter == 18 { mk(vec![AckGroup { base_id: old, bitfield: 1, nonce: nonce_of(old)? }]) }
+            else { mk(vec![AckGroup { base_id: old, bitfield: 1 | 1 << newer.wrapping_sub(old), nonce: nonce_of(old)? ^ nonce_of(newer)? }]) }
+        }
         _ => None,
     }
 }
@@ -81,27 +93,36 @@ fn compare(base: &Trace, twin: &Trace, from_round: usize, what: &str) -> Vec<Vio
 pub fn build(quick: bool) -> PropRun {
     let mut scs = Vec::new();
     let window = if quick { 24 } else { 40 };
-    let d = if quick { 0 } else { 1 };
+    let d = 1; // one fate deviation in the baseline (a lost acknowledgement leaves older frames unacknowledged)
     use SendMode::*;
     let mut scripts: Vec<(String, Vec<Op>)> = collision_scripts().into_iter().take(if quick { 5 } else { 8 }).map(|(n, o)| (n.to_string(), o)).collect();
     scripts.push(("steady-stream".into(), (0..12).map(|i| send(i, 0, (i % 2) as u8, if i % 2 == 0 { Reliable } else { Unreliable }, 300 + 100 * (i % 4))).collect()));
     for (sname, ops) in scripts {
         for cfg in [LwCfg::small(), LwCfg { pwin: 4096, fwin: 4096, pbase: [0xFFFFE, 5], fbase: [0xFFFF_FFFD, 9], bw: [50_000, 50_000], ..LwCfg::small() }] {
             let si = Arc::new(ScriptInfo::new(ops.clone()));
-            let env = LwEnv { fates: if d == 0 { FATES_NONE } else { &[Fate::Deliver, Fate::Drop, Fate::Dup, Fate::Delay3] }, deltas: &[20], dev_rounds: if d == 0 { 0 } else { 10 }, dev_start: 0, max_rounds: window + 60, skip_choice: false, flush_choice: false,
+            let env = LwEnv { fates: if quick { &[Fate::Deliver, Fate::Drop] } else { &[Fate::Deliver, Fate::Drop, Fate::Dup, Fate::Delay3] }, deltas: &[20], dev_rounds: if d == 0 { 0 } else { 10 }, dev_start: 0, max_rounds: window + 60, skip_choice: false, flush_choice: false,
                               blackouts: &[], stop_when_idle: false, fair_delta: 20, slow_after: usize::MAX, slow_delta: 250, fuel: 2_000_000, shifts: &[] };
             let name = format!("C15.twin.{}|{}|{}|{}|w{}|d{}", sname, cfg.name(), si.name, env.name(), window, d);
             let run = move |ch: &mut Chooser| -> ExecResult {
                 let r = ch.free(window + 1);
                 let k = if r > 0 { ch.free(LETTERS.len()) } else { 0 };
                 let skip = ch.taken.len();
-                let base = run_lw(&cfg, &si, &env, ch, None);
+                let mut base = run_lw(&cfg, &si, &env, ch, None);
                 let mut violations = Vec::new();
                 let mut injected = false;
+                if r > 0 && k == MERGED {
+                    // the reference run is the one with the first-time acknowledgement alone
+                    let mut c1 = Chooser::new(ch.taken[skip..].to_vec(), vec![]);
+                    let mut ok = false;
+                    let mut inj = |round: usize, side: usize, tr: &Trace, _hc: &mut uflow::verif::HalfConnection| -> Vec<Vec<u8>> { if round == r - 1 && side == 0 { if let Some(b) = craft(18, tr, &cfg) { ok = true; return vec![b]; } } vec![] };
+                    base = run_lw(&cfg, &si, &env, &mut c1, Some(&mut inj));
+                    if !ok { return ExecResult { outcome: 9, ..Default::default() }; }
+                }
+                let kk = if k == MERGED { 118 } else { k };
                 if r > 0 {
                     let mut c2 = Chooser::new(ch.taken[skip..].to_vec(), vec![]);
                     let mut inj = |round: usize, side: usize, tr: &Trace, _hc: &mut uflow::verif::HalfConnection| -> Vec<Vec<u8>> {
-                        if round == r - 1 && side == 0 { if let Some(b) = craft(k, tr, &cfg) { injected = true; return vec![b]; } }
+                        if round == r - 1 && side == 0 { if let Some(b) = craft(kk, tr, &cfg) { injected = true; return vec![b]; } }
                         vec![]
                     };
                     let twin = run_lw(&cfg, &si, &env, &mut c2, Some(&mut inj));
